@@ -2,7 +2,7 @@
 # usage: tools/try_seed4.sh <PROP> [tier] -- confirm a round-4 seeded change left applied in /tmp/wt4_<PROP> (files in /tmp/mut4_<PROP>) and run our check
 # against that worktree (/repo itself is untouched)
 set -u
-P=$1; T=${2:-quick}; W=/tmp/wt4_$P; M=/tmp/mut4_$P
+P=$1; T=${2:-quick}; R=${ROUND:-4}; W=/tmp/wt${R}_$P; M=/tmp/mut${R}_$P
 git -C $W diff --stat -- src | tail -1
 echo "--- demo on the unchanged tree:"; PYTHONPATH=/repo/src timeout 300 /venv/bin/python $M/demo.py > /tmp/demo_clean_$P.out 2>&1; echo "rc=$? $(tail -1 /tmp/demo_clean_$P.out)"
 echo "--- demo with the change:"; PYTHONPATH=$W/src timeout 300 /venv/bin/python $M/demo.py > /tmp/demo_mut_$P.out 2>&1; echo "rc=$? $(tail -1 /tmp/demo_mut_$P.out)"
